@@ -460,6 +460,85 @@ def rule6_results(ctx, fl, v, ws):
     ctx.floor('C16.6', 56)
 
 
+def rule7_destructor_protocol(ctx, fl):
+    ctx.doc('C16.7', 'POSIX key-destructor protocol at thread exit (the body pthread_key_create forwards to): the destructor of a key is '
+            'invoked only for a value that was tested non-NULL (a program whose destructor dereferences or counts its argument is '
+            'determinate and observes the difference)')
+    v = ctx.view('myth_if_native.c', roots=['myth_tls_call_destructors_rec'], stops=('myth_tls_tree_node_free', 'myth_free') + lib.SPIN_STOPS,
+                 flavour=fl)
+    f = ctx.need_fn(v, 'myth_tls_call_destructors_rec')
+    ic = [c for c in f.order if c.op == 'call' and 'callee_ref' in c.d]
+    ctx.ob('C16.7', 'destructor call site', len(ic) == 1, 'one indirect call in the exit walk', loc=f.loc)
+    for c in ic:
+        arg = c.args[0] if c.args else None
+        vl = [f.insts[k] for k in f.sources(arg) if k in f.insts] if arg is not None else []
+        okv = len(vl) == 1 and vl[0].op == 'load' and f.field(vl[0]) == 'myth_tls_entry.value'
+        ctx.ob('C16.7', 'destructor argument is the slot value', okv, 'destructor(n->entries[i].value)', loc=c.loc)
+        nt = lib.null_tests(f, vl[0].id) if okv else []
+        ctx.ob('C16.7', 'myth_tls_call_destructors_rec: destructor only for a non-NULL value',
+               any(f.edge_dominates(br.block.id, nn, c) for br, nn, nl in nt),
+               'POSIX: the destructor is called only if the value is non-NULL; the system library never calls it with NULL', loc=c.loc,
+               detail='the call is guarded by the destructor pointer only' if not nt else '')
+    ctx.floor('C16.7', 3)
+
+
+def rule8_real(ctx):
+    ctx.doc('C16.8', 'myth_real.c, every real_<f> in every flavour: it reaches the system function of the same name - through '
+            'real_function_table.<f> (preloading), __real_<f> (link-time wrapping) or <f> itself (vanilla) - passing its own '
+            'parameters in order and returning that call\'s result')
+    for fl in ('dl', 'ld', 'vanilla'):
+        m = ctx.ssa('myth_real.c', flavour=fl)
+        n = 0
+        for name, f in sorted(m.functions.items()):
+            if not name.startswith('real_') or name.startswith('real_function'):
+                continue
+            base = name[len('real_'):]
+            calls = [c for c in f.calls() if not (c.callee or '').startswith('llvm.') and c.callee not in ('ensure_real_functions_', '__assert_fail')]
+            if not calls:
+                continue
+            n += 1
+            # the calls that leave the library: indirect ones (preloading) or direct ones to a system / __real_ symbol;
+            # calls of library-internal helpers (bootstrap allocation while the table is being filled) are not dispatches
+            if fl == 'dl':
+                disp = [c for c in calls if 'callee_ref' in c.d]
+            else:
+                disp = [c for c in calls if c.callee and c.callee not in m.functions]
+            ok = len(disp) >= 1
+            why = 'no dispatch found'
+            for c in disp:
+                if fl == 'dl':
+                    l = f.get(f.strip(c.d.get('callee_ref')))
+                    slot = f.field(l) if l is not None and l.op == 'load' else None
+                    good = slot is not None and slot.split('.', 1)[-1] == base and slot.startswith('real_function_table')
+                    w1 = 'dispatches through %s' % (slot or '?')
+                else:
+                    # inside the library both spellings reach the system function: --wrap rewrites only the program's references
+                    good = c.callee in (('__real_' + base, base) if fl == 'ld' else (base,))
+                    w1 = 'calls %s' % c.callee
+                if good:
+                    k = min(len(f.params), len(c.args))
+                    if not all(same_value(f, c.args[i], f.params[i]['id']) for i in range(k)):
+                        good, w1 = False, w1 + '; parameters not forwarded in order'
+                why = w1
+                if not good:
+                    ok = False
+                    break
+            if ok:
+                ids = set(c.id for c in calls)
+                for r in f.exits():
+                    if not r.ops:
+                        continue
+                    for k_ in f.sources(r.ops[0]):
+                        i_ = f.insts.get(k_)
+                        if i_ is not None and i_.op == 'call' and i_.id not in ids:
+                            ok, why = False, 'returns the result of another call'
+            ctx.ob('C16.8', '%s[%s] reaches the system %s' % (name, fl, base), ok,
+                   'the unwrapped path and the attribute translation rely on real_<f> being the system <f>; a crossed slot makes the '
+                   'redirected program read a different attribute or call a different function than the native one', loc=f.loc, detail=why)
+        ctx.ob('C16.8', 'real_ functions enumerated [%s]' % fl, n >= 100, 'the table of system entry points', loc='src/myth_real.c', detail=str(n))
+    ctx.floor('C16.8', 300)
+
+
 def run(ctx):
     fls = ['ld', 'dl']
     for fl in fls:
@@ -468,6 +547,9 @@ def run(ctx):
         rule1_forward(ctx, fl, v, ws)
         rule2_static_init(ctx, fl, v)
         rule6_results(ctx, fl, v, ws)
+        rule7_destructor_protocol(ctx, fl)
+    ctx.unit = 'real'
+    rule8_real(ctx)
     ctx.unit = 'link'
     rule4_wraplist(ctx)
     rule5_abi(ctx)
@@ -476,6 +558,11 @@ def run(ctx):
 WRAP = 'src/myth_wrap_pthread.c'
 OPTS = 'src/myth-ld.opts'
 MUTANTS = [
+    {'name': 'real_pthread_attr_getdetachstate dispatches through the inheritsched slot (seed2 C16/m2)', 'expect': 'C16.8',
+     'edits': [('src/myth_real.c', "  if (!real_function_table.pthread_attr_getdetachstate) ensure_real_functions();\n  assert(real_function_table.pthread_attr_getdetachstate);\n  return real_function_table.pthread_attr_getdetachstate(attr, detachstate);",
+                "  if (!real_function_table.pthread_attr_getinheritsched) ensure_real_functions();\n  assert(real_function_table.pthread_attr_getinheritsched);\n  return real_function_table.pthread_attr_getinheritsched(attr, detachstate);")]},
+    {'name': 'real_pthread_mutex_trylock link-time path calls the real lock', 'expect': 'C16.8',
+     'edits': [('src/myth_real.c', "  return __real_pthread_mutex_trylock(mutex);", "  return __real_pthread_mutex_lock(mutex);")]},
     {'name': 'pthread_mutex_lock forwarded to trylock', 'expect': 'C16.1',
      'edits': [(WRAP, "    myth_handle_PTHREAD_MUTEX_INITIALIZER(mutex);\n    ret = myth_mutex_lock_body((myth_mutex_t *)mutex);", "    myth_handle_PTHREAD_MUTEX_INITIALIZER(mutex);\n    ret = myth_mutex_trylock_body((myth_mutex_t *)mutex);")]},
     {'name': 'pthread_cond_wait passes its arguments swapped/duplicated', 'expect': 'C16.1',
